@@ -34,7 +34,13 @@ from sigma.correlations import (
     SigmaExtendedCorrelationCondition,
     SigmaRuleReference,
 )
-from sigma.exceptions import SigmaBackendError, SigmaConversionError, SigmaError, SigmaValueError
+from sigma.exceptions import (
+    SigmaBackendError,
+    SigmaConversionError,
+    SigmaError,
+    SigmaFeatureNotSupportedByBackendError,
+    SigmaValueError,
+)
 from sigma.processing.pipeline import ProcessingPipeline
 from sigma.rule import SigmaRule
 from sigma.rule.detection import SigmaDetection, SigmaDetectionItem
@@ -307,6 +313,12 @@ class Backend(ABC):
         except (
             Exception
         ) as e:  # enrich all other exceptions with Sigma-specific context information
+            if self.collect_errors and isinstance(e, NotImplementedError):
+                # feature not supported by the backend: a conversion failure of this rule only
+                self.errors.append(
+                    (rule, SigmaFeatureNotSupportedByBackendError(str(e), source=rule.source))
+                )
+                return []
             msg = f" (while {error_state} rule {str(rule.source)})"
             if len(e.args) > 1:
                 e.args = (e.args[0] + msg,) + e.args[1:]
@@ -770,6 +782,15 @@ class Backend(ABC):
                 return []
             else:
                 raise e
+        except NotImplementedError as e:
+            if self.collect_errors:
+                # feature not supported by the backend: a conversion failure of this rule only
+                self.errors.append(
+                    (rule, SigmaFeatureNotSupportedByBackendError(str(e), source=rule.source))
+                )
+                return []
+            else:
+                raise
 
     @abstractmethod
     def convert_correlation_event_count_rule(
